@@ -89,7 +89,7 @@ impl G {
             G::Suffix(op, e) => {
                 // `3.|` / `3._` would lex as a decimal: group numeric atoms
                 match &**e {
-                    G::Atom(a) if a.chars().next().map(|c| c.is_ascii_digit()).unwrap_or(false) => format!("({}){}", a, op),
+                    G::Atom(a) if a.chars().last().map(|c| c.is_ascii_digit()).unwrap_or(false) => format!("({}){}", a, op),
                     _ => format!("{}{}", e.op(), op),
                 }
             }
@@ -128,6 +128,105 @@ impl G {
             G::PrefixApply(name, e) => format!("{}` {}", name, e.op()),
             G::SuffixApply(e, name) => format!("{} `{}", e.op(), name),
             G::InfixApply(l, name, r) => format!("{} `{}` {}", l.op(), name, r.op()),
+        }
+    }
+
+    /// binding strength the parser gives this node (its own priority table; smaller binds tighter)
+    fn prio(&self) -> u32 {
+        match self {
+            G::Atom(_) | G::Ident(_) | G::Nested(_) | G::Side(_, _) => 10,
+            G::Access(_, _) => 30,
+            G::Suffix(op, _) => match *op {
+                "~~" => 40,
+                _ => 60,
+            },
+            G::Prefix(op, _) => match *op {
+                "_." => 50,
+                "#" => 69,
+                "!!" | "??" => 400,
+                _ => 75,
+            },
+            G::Bin(op, _, _) => match *op {
+                "~#" => 70,
+                "**" => 80,
+                "*" | "/" | "//" | "%" => 90,
+                "+" | "-" => 100,
+                "<<" | ">>" => 110,
+                "&" => 111,
+                "^" => 112,
+                "|" => 113,
+                ".." | ">.." | "..<" | ">..<" => 200,
+                "=" => 210,
+                "~" => 230,
+                "<>" => 240,
+                "<" | "<=" | ">" | ">=" => 300,
+                "==" | "!=" | "#=" => 400,
+                "&&" => 410,
+                "^^" => 420,
+                "||" => 430,
+                "<~" | "~>" => 550,
+                _ => 999,
+            },
+            G::PrefixApply(_, _) => 150,
+            G::SuffixApply(_, _) => 151,
+            G::InfixApply(_, _, _) => 152,
+            // `(,)` prints with its own brackets; a one-element list prints as `x,`
+            G::SpaceList(i) | G::CommaList(i) if i.is_empty() => 10,
+            G::SpaceList(i) | G::CommaList(i) if i.len() == 1 => 900,
+            G::SpaceList(_) => 220,
+            G::Reapply(_) => 600,
+            G::Cond(_, _, _) => 700,
+            G::Chain(_, _) => 800,
+            G::CommaList(_) => 900,
+            G::Seq(_) => 1000,
+        }
+    }
+
+    /// operand of a construct with priority `p`: bare when it binds tighter (or equally, on the side the
+    /// construct associates to), bracketed otherwise
+    fn opm(&self, p: u32, allow_equal: bool) -> String {
+        let q = self.prio();
+        if matches!(self, G::Seq(_)) {
+            return self.op();
+        }
+        if q < p || (allow_equal && q == p) {
+            self.min()
+        } else {
+            format!("({})", self.min())
+        }
+    }
+
+    /// the same program printed with only the brackets the priority table requires, so that operators sit
+    /// directly under each other in the parse tree (no group nodes in between). Unary operators, access,
+    /// the identifier-apply forms and one-element lists keep their bracketed operands.
+    pub fn min(&self) -> String {
+        match self {
+            G::Bin(op, l, r) => {
+                let p = self.prio();
+                if *op == "=" {
+                    // pairs group right-to-left
+                    format!("{} {} {}", l.opm(p, false), op, r.opm(p, true))
+                } else {
+                    format!("{} {} {}", l.opm(p, true), op, r.opm(p, false))
+                }
+            }
+            G::SpaceList(items) if items.len() >= 2 => items.iter().map(|i| i.opm(220, false)).collect::<Vec<_>>().join(" "),
+            G::CommaList(items) if items.len() >= 2 => items.iter().map(|i| i.opm(900, false)).collect::<Vec<_>>().join(", "),
+            G::Nested(e) => format!("{{ {} }}", e.min()),
+            G::Cond(op, c, a) => format!("{} {} {}", c.opm(700, false), op, a.opm(700, false)),
+            G::Chain(arms, default) => {
+                let mut parts: Vec<String> = arms.iter().map(|(op, c, a)| format!("{} {} {}", c.opm(700, false), op, a.opm(700, false))).collect();
+                if let Some(d) = default {
+                    parts.push(d.opm(700, false));
+                }
+                parts.join(" |> ")
+            }
+            G::Seq(items) => items.iter().map(|i| if matches!(i, G::Seq(_)) { i.op() } else { i.min() }).collect::<Vec<_>>().join("\n\n"),
+            G::Side(v, body) => format!("{} [{}]", v.op(), body.min()),
+            G::Reapply(e) => format!("^~ {}", e.opm(600, false)),
+            G::Prefix(op, e) if *op == "!!" || *op == "??" => format!("{}{}", op, e.opm(400, true)),
+            // everything else as in the fully bracketed form
+            _ => self.top(),
         }
     }
 
@@ -304,18 +403,33 @@ pub struct Gen<'a> {
     /// inside the body of a counted loop a bare `$` would copy the whole loop state into the next state:
     /// two of them double it per iteration (exponential value trees). Disallowed there.
     no_dollar: u32,
+    /// `$` is a concatenation of this many symbol-keyed pairs (0 = it is not)
+    dollar_concat: usize,
+    /// allow the body-less nested expression `{ }` as a value (C20: its expression constant must stay
+    /// inside the tenant's own jump range)
+    pub empty_nested: bool,
 }
 
 const WORDS: [&str; 8] = ["a", "abc", "hello", "x y", "Zed", "q1", "lorem", "w"];
 
 impl<'a> Gen<'a> {
     pub fn new(rng: &'a mut Rng, cfg: GenCfg) -> Self {
-        Gen { rng, cfg, fresh: 0, used_idents: vec![], depth_nested: 0, dollar_keyed: true, no_list: 0, no_dollar: 0 }
+        Gen { rng, cfg, fresh: 0, used_idents: vec![], depth_nested: 0, dollar_keyed: true, no_list: 0, no_dollar: 0, dollar_concat: 0, empty_nested: false }
     }
 
     /// tell the generator what the run's input value will look like
     pub fn set_input_keyed(&mut self, keyed: bool) {
         self.dollar_keyed = keyed;
+    }
+
+    /// print a generated program: half of the time fully bracketed, half of the time with only the
+    /// brackets the priority table requires
+    pub fn print(&mut self, g: &G) -> String {
+        if self.rng.chance(1, 2) {
+            g.min()
+        } else {
+            g.top()
+        }
     }
 
     pub fn program(&mut self) -> G {
@@ -343,6 +457,9 @@ impl<'a> Gen<'a> {
     }
 
     pub fn literal(&mut self) -> G {
+        if self.empty_nested && self.rng.chance(1, 25) {
+            return G::atom("{ }");
+        }
         let c = &self.cfg;
         let w = [10u32, 2, 2, 2, 3, c.w_text, c.w_float, if c.boundary_literals { 6 } else { 0 }, if c.w_text > 0 { 1 } else { 0 }];
         match self.rng.weighted(&w) {
@@ -382,7 +499,7 @@ impl<'a> Gen<'a> {
             "\"é\"",
             "\"日本語\"",
             "\"a😀b\"",
-            "''",
+            "'x'",
             "'\u{e9}'",
         ];
         G::Atom(self.rng.pick(&opts).to_string())
@@ -407,6 +524,9 @@ impl<'a> Gen<'a> {
     /// an expression whose value is allowed to become `$`: a keyed literal, or a list-free expression.
     /// returns (expr, is_keyed)
     fn dollar_candidate(&mut self, budget: usize) -> (G, bool) {
+        if self.cfg.w_concat > 0 && self.rng.chance(1, 6) {
+            return (self.keyed_concat(budget).0, true);
+        }
         match self.rng.below(5) {
             0 => (G::atom("()"), true),
             1 => {
@@ -431,6 +551,20 @@ impl<'a> Gen<'a> {
         } else {
             G::CommaList(items)
         }
+    }
+
+    /// `(:ka = e) <> (:kb = e) [<> (:kc = e)]`: a concatenation of keyed pairs, and how many parts it has
+    fn keyed_concat(&mut self, budget: usize) -> (G, usize) {
+        let mut ks = self.cfg.keys.clone();
+        self.rng.shuffle(&mut ks);
+        let n = self.rng.range(2, ks.len().min(4));
+        let each = (budget.saturating_sub(1) / n).saturating_sub(2).max(1);
+        let mut parts: Vec<G> = ks[..n].iter().map(|k| G::bin("=", G::Atom(format!(":{}", k)), self.scalar(each))).collect();
+        let mut cur = parts.remove(0);
+        for p in parts {
+            cur = G::bin("<>", cur, p);
+        }
+        (cur, n)
     }
 
     /// list-free expression
@@ -564,9 +698,16 @@ impl<'a> Gen<'a> {
                 }
             }
             7 => {
-                // property access: on `$` when it is known to be keyed, else on a keyed list literal
-                if self.dollar_keyed && self.rng.chance(1, 2) {
+                // property access: on `$` when it is known to be keyed, else on a keyed list (or concatenation) literal
+                if self.dollar_concat > 0 && self.rng.chance(1, 2) {
+                    let i = self.rng.below(self.dollar_concat);
+                    G::Access(Box::new(G::atom("$")), i.to_string())
+                } else if self.dollar_keyed && self.rng.chance(1, 2) {
                     G::Access(Box::new(G::atom("$")), self.key())
+                } else if c.w_concat > 0 && self.rng.chance(1, 3) {
+                    let k = self.key();
+                    let target = self.keyed_concat(budget - 1).0;
+                    G::Access(Box::new(target), k)
                 } else {
                     let k = self.key();
                     let target = self.keyed_list(budget - 1);
@@ -585,17 +726,29 @@ impl<'a> Gen<'a> {
                 // nested expression, applied in one of the three ways (or left as a value)
                 let (b, a) = self.split(budget);
                 let form = self.rng.below(6);
+                let mut concat_parts = 0;
                 let (arg, keyed) = match form {
                     3 => (G::atom("()"), true),
                     5 => (G::atom("()"), false),
-                    _ => self.dollar_candidate(a),
+                    _ => {
+                        if c.w_concat > 0 && self.rng.chance(1, 8) {
+                            let (g, n) = self.keyed_concat(a);
+                            concat_parts = n;
+                            (g, true)
+                        } else {
+                            self.dollar_candidate(a)
+                        }
+                    }
                 };
                 let saved = self.dollar_keyed;
+                let saved_concat = self.dollar_concat;
+                self.dollar_concat = concat_parts;
                 self.dollar_keyed = keyed;
                 self.depth_nested += 1;
                 let body = if c.w_seq > 0 && b >= 4 && self.rng.chance(1, 4) { self.seq(b) } else { self.expr(b) };
                 self.depth_nested -= 1;
                 self.dollar_keyed = saved;
+                self.dollar_concat = saved_concat;
                 let f = G::Nested(Box::new(body));
                 match form {
                     0 | 1 | 4 => G::bin("<~", f, arg),
@@ -678,7 +831,7 @@ impl<'a> Gen<'a> {
                 G::Atom(s)
             }
             18 => {
-                let target = *self.rng.pick(&["\"\"", "''", "0", "(,)", ":s", "#0", "#\"\"", "$?", "()"]);
+                let target = *self.rng.pick(&["\"\"", "'x'", "0", "(,)", ":s", "#0", "#\"\"", "$?", "()"]);
                 G::bin("~#", self.expr(budget - 1), G::Atom(target.to_string()))
             }
             19 => {
